@@ -114,7 +114,7 @@ Proof.
         - destruct (N.eqb c cSL); [destruct (c_pathname cf); [exact I|cbn; lia]|].
           destruct (ch_in c set_operators); [cbn; lia|]. destruct (N.eqb c 35); cbn; lia. }
       destruct vres as [[value it1]| |]; [|exact I|contradiction]. cbn in GV.
-      destruct (if _ && _ then _ else _) as [[r1 e1] rm1].
+      destruct (if _ && _ then _ else _) as [[[r1 e1] rm1] eh1].
       destruct (next it1) as [[c' it']|] eqn:N; [|exact I]. apply next_size in N.
       eapply good_le; [apply IH; lia|lia].
 Qed.
